@@ -73,6 +73,12 @@ type Req struct {
 	Scribble   bool   `json:"scribble,omitempty"`
 	LateBodyNs int64  `json:"late_body_ns,omitempty"`
 	ReuseReq   bool   `json:"reuse_req,omitempty"`
+	// ReuseSet: header fields the caller sets on its own request when it reuses it (with
+	// ReuseReq), ReuseDelayNs how long after closing the body it does so.
+	ReuseSet     [][2]string `json:"reuse_set,omitempty"`
+	ReuseDelayNs int64       `json:"reuse_delay_ns,omitempty"`
+	// EmptyMethod: the request is sent with Method "" (which net/http defines as GET).
+	EmptyMethod bool `json:"empty_method,omitempty"`
 	Uncond     Reply  `json:"uncond"`
 	Cond       *Reply `json:"cond,omitempty"`
 	Bg         *Reply `json:"bg,omitempty"`
